@@ -253,7 +253,14 @@ func (t *Thread) end(args []Value, err error, exception interface{}) {
 	caller := t.caller
 	// The pending to-be-closed variables are closed before taking the locks:
 	// their handlers are Lua code, which may resume, wrap or close coroutines.
-	err = t.cleanupCloseStack(nil, 0, err) // TODO: not nil
+	if _, killed := exception.(ContextTerminationError); killed {
+		// The context was terminated: there are no resources to run the
+		// handlers, so the pending to-be-closed variables are discarded (as
+		// CallContext does).
+		t.closeStack.truncate(0)
+	} else {
+		err = t.cleanupCloseStack(nil, 0, err) // TODO: not nil
+	}
 	t.mux.Lock()
 	caller.mux.Lock()
 	defer t.mux.Unlock()
